@@ -62,7 +62,7 @@ def supply_value(name, x, mode):
     return None
 
 
-def reference(prog, info, supplied, x):
+def reference(prog, info, supplied, x, late_deleted=False):
     def declare(sid, name):
         mode = supplied.get(name)
         v = supply_value(name, x, mode) if mode else None
@@ -70,7 +70,10 @@ def reference(prog, info, supplied, x):
             raise NameError(name)
         return v
 
-    C.get_world(prog, info, "twin").ns["LATER"] = 5
+    tw = C.get_world(prog, info, "twin")
+    tw.ns["LATER"] = 5
+    if late_deleted:
+        tw.ns.pop("LATER", None)
     obs, trace = C.twin_run(prog, info, x, None, subst={"declare": declare})
     return obs, trace
 
@@ -78,7 +81,7 @@ def reference(prog, info, supplied, x):
 ROUTES = ["tooled+overlay", "partial+overlay", "oprobe", "probe-undef", "generic", "probe-ext", "ctx-probe", "stacked", "total"]
 
 
-def instrumented(prog, info, route, supplied, x, part):
+def instrumented(prog, info, route, supplied, x, part, late_deleted=False):
     """Returns (obs, exception object or None, events list) / (('activation-failed',...), None, None)."""
     from ptera import probing, tooled, Overlay
     from ptera.selector import select
@@ -185,10 +188,14 @@ def instrumented(prog, info, route, supplied, x, part):
         return ("activation-failed", type(e).__name__, str(e)[:300]), None, None
     exc = None
     try:
+        if late_deleted:
+            # the global existed when the probes were activated and is gone when the function is called
+            wd.ns.pop("LATER", None)
         obs = P.run(wd, fn, x, None, prog.flags)
         if obs[0][0] == "exc":
             wd.reset()
-            wd.ns["LATER"] = 5
+            if not late_deleted:
+                wd.ns["LATER"] = 5
             try:
                 fn(x)
             except BaseException as e:
@@ -210,12 +217,12 @@ def instrumented(prog, info, route, supplied, x, part):
     return obs, exc, events
 
 
-def check_case(prog, info, route, supplied, x, part, record=True):
+def check_case(prog, info, route, supplied, x, part, record=True, late_deleted=False):
     from ptera.transform import PteraNameError
     from ptera import tag
 
-    robs, trace = reference(prog, info, supplied, x)
-    obs, exc, events = instrumented(prog, info, route, supplied, x, part)
+    robs, trace = reference(prog, info, supplied, x, late_deleted)
+    obs, exc, events = instrumented(prog, info, route, supplied, x, part, late_deleted)
     reached = any(t[0] == "bind" and t[3] == "declare" for t in trace) or robs[0][:2] == ("exc", "NameError")
     if record:
         part["cases"] += 1
@@ -231,7 +238,7 @@ def check_case(prog, info, route, supplied, x, part, record=True):
         return ("absent-marker-leaked", f"ptera's ABSENT marker reached user-visible data: {blob[:300]}")
     from ptera.transform import PteraNameError as _PNE
     entry = []
-    if isinstance(exc, _PNE) and exc.varname == "UNDEF" and not obs[1]:
+    if isinstance(exc, _PNE) and exc.varname in (("UNDEF", "LATER") if late_deleted else ("UNDEF",)) and not obs[1]:
         entry = ["entry-error:UNDEF"]  # raised while pre-loading the undefined global, before the body ran
     if norm(obs) != norm(robs):
         lab, det = P.first_difference(norm(robs), norm(obs))
@@ -288,9 +295,10 @@ def check_program(prog, tier, part):
     part["counters"]["programs"] += 1
     for route, sup in configs(prog, info, tier):
         for x in (0, 1, 2):
-            bad = check_case(prog, info, route, sup, x, part)
+          for late_deleted in ((False, True) if "LATER" in prog.src else (False,)):
+            bad = check_case(prog, info, route, sup, x, part, late_deleted=late_deleted)
             if bad:
-                case = {"src": prog.src, "forms": list(prog.forms), "x": x, "route": route, "supplied": sup}
+                case = {"src": prog.src, "forms": list(prog.forms), "x": x, "route": route, "supplied": sup, "late_deleted": late_deleted}
                 vio = violation(PROP, bad[0], case, bad[1], tags=["route:" + route] + list(bad[2:]))
                 C.attribute(PROP, vio, prog, part, lambda p2: True)
     if len(part["samples"]) < 2:
@@ -311,7 +319,7 @@ def replay(case):
     prog = M.Prog(src, tuple(case["forms"]), C.flags_of(src), 0)
     info = C.analyse(prog)
     part = new_partial()
-    bad = check_case(prog, info, case["route"], case["supplied"], case["x"], part)
+    bad = check_case(prog, info, case["route"], case["supplied"], case["x"], part, late_deleted=case.get("late_deleted", False))
     C.drop_worlds(prog)
     if bad:
         return True, bad[1]
